@@ -725,11 +725,15 @@ fn rng_for(seed: u64) -> TestRng {
     TestRng::from_seed(RngAlgorithm::ChaCha, &bytes)
 }
 
+/// upper bound on shrinking steps (schedule-dependent checks set it lower: every step re-runs
+/// the case under a forced schedule and a timing-dependent failure does not shrink reliably)
+pub static MAX_SHRINK_ITERS: std::sync::atomic::AtomicU32 = std::sync::atomic::AtomicU32::new(4096);
+
 fn config(cases: u32) -> Config {
     Config {
         cases,
         failure_persistence: None,
-        max_shrink_iters: 4096,
+        max_shrink_iters: MAX_SHRINK_ITERS.load(Ordering::Relaxed),
         max_global_rejects: 65536,
         ..Config::default()
     }
@@ -798,6 +802,7 @@ where
     let local = Mutex::new(LocalStats::default());
     let hung = AtomicBool::new(false);
     let first_fail: Mutex<Option<Fail>> = Mutex::new(None);
+    let first_case: Mutex<Option<Value>> = Mutex::new(None);
     let track_current = std::env::var("SV_TRACK_CURRENT").is_ok();
     let res = runner.run(&strategy, |case| {
         if rep.stopped() && !failed.load(Ordering::Relaxed) {
@@ -822,6 +827,7 @@ where
                 let mut ff = first_fail.lock().unwrap();
                 if ff.is_none() {
                     *ff = Some(f.clone());
+                    *first_case.lock().unwrap() = Some(serde_json::to_value(&case).unwrap_or(Value::Null));
                 }
                 Err(TestCaseError::fail(f.signature))
             }
@@ -832,15 +838,23 @@ where
         Ok(()) => true,
         Err(TestError::Fail(_, minimal)) => {
             // re-evaluate the minimal case to get its message (a hang is reported as found)
+            let mut case_json = serde_json::to_value(&minimal).unwrap();
             let fail = if hung.load(Ordering::Relaxed) {
                 first_fail.lock().unwrap().clone().unwrap()
             } else {
                 match guard_case(sub, || check(&minimal)) {
                     Err(f) => f,
-                    Ok(_) => Fail::new("flaky", "minimal case passed when re-run"),
+                    Ok(_) => {
+                        // a schedule / timing dependent failure: report the case as first found
+                        let f0 = first_fail.lock().unwrap().clone().unwrap();
+                        if let Some(c0) = first_case.lock().unwrap().clone() {
+                            case_json = c0;
+                        }
+                        Fail::new(f0.signature, format!("{} (schedule dependent: the shrunk case passed when re-run; this is the case as first found)", f0.msg))
+                    }
                 }
             };
-            rep.record_violation(sub, fail, serde_json::to_value(&minimal).unwrap());
+            rep.record_violation(sub, fail, case_json);
             false
         }
         Err(TestError::Abort(reason)) => {
